@@ -39,21 +39,21 @@ func MakeActors() *Actors {
 	a.ModCons = addr20("modconsumer")
 	p1, p2 := addr20("prov1"), addr20("prov2")
 	p3 := sdk.AccAddress(append(append([]byte{}, sha256Sum("prov3")[:15]...), []byte(denom)...)) // 20 bytes ending in the denom
-	p4 := sdk.AccAddress(append(append([]byte{}, p1[:19]...), 0x00))                               // differs from p1 in the last byte, ends in 0x00
-	p19 := sdk.AccAddress(sha256Sum("prov19")[:19])               // 19 bytes
-	q := sdk.AccAddress(append(append([]byte{}, p19...), 0x01))   // p19 followed by a byte that sorts before the denom
-	pff := sdk.AccAddress(append([]byte{0xff}, sha256Sum("provff")[:19]...)) // leading 0xff
+	p4 := sdk.AccAddress(append(append([]byte{}, p1[:19]...), 0x00))                             // differs from p1 in the last byte, ends in 0x00
+	p19 := sdk.AccAddress(sha256Sum("prov19")[:19])                                              // 19 bytes
+	q := sdk.AccAddress(append(append([]byte{}, p19...), 0x01))                                  // p19 followed by a byte that sorts before the denom
+	pff := sdk.AccAddress(append([]byte{0xff}, sha256Sum("provff")[:19]...))                     // leading 0xff
 	a.SignProv = []sdk.AccAddress{p1, p2, p3, p4, a.Owners[0], q, pff}
 	a.OddProv = []sdk.AccAddress{
-		append(sdk.AccAddress{}, p1[:13]...),                       // 13-byte prefix of p1
-		append(sdk.AccAddress{}, p2[:1]...),                        // 1-byte prefix of p2
-		append(append(sdk.AccAddress{}, p1...), 'x'),               // 21-byte extension of p1
-		append(append(sdk.AccAddress{}, p2...), []byte(denom)...),  // p2 followed by the denom
-		sdk.AccAddress(sha256Sum("odd32")),                         // 32 bytes
+		append(sdk.AccAddress{}, p1[:13]...),                                                // 13-byte prefix of p1
+		append(sdk.AccAddress{}, p2[:1]...),                                                 // 1-byte prefix of p2
+		append(append(sdk.AccAddress{}, p1...), 'x'),                                        // 21-byte extension of p1
+		append(append(sdk.AccAddress{}, p2...), []byte(denom)...),                           // p2 followed by the denom
+		sdk.AccAddress(sha256Sum("odd32")),                                                  // 32 bytes
 		append(append(sdk.AccAddress{}, sha256Sum("odd40")...), sha256Sum("odd40b")[:8]...), // 40 bytes
-		sdk.AccAddress{0x00, 0x00, 0x01},                           // embedded zero bytes
-		append(sdk.AccAddress{}, p3[:15]...),                       // p3 without its "stake" tail
-		p19,                                                        // 19-byte prefix of the signer provider q
+		sdk.AccAddress{0x00, 0x00, 0x01},                                                    // embedded zero bytes
+		append(sdk.AccAddress{}, p3[:15]...),                                                // p3 without its "stake" tail
+		p19,                                                                                 // 19-byte prefix of the signer provider q
 	}
 	a.Wallets = []sdk.AccAddress{addr20("wallet1"), addr20("wallet2"), sdk.AccAddress(sha256Sum("wallet32")), sdk.AccAddress(sha256Sum("wallet7")[:7])}
 	a.All20 = append(a.All20, a.Owners...)
@@ -109,6 +109,7 @@ func someSchemas(rng *rand.Rand) string {
 	}
 	return goodSchemas
 }
+
 const goodInput = `{"header":{},"body":{}}`
 const goodOutput = `{"header":{},"body":{}}`
 const goodResult = `{"code":200,"message":""}`
@@ -131,7 +132,8 @@ func RandParams(rng *rand.Rand) types.Params {
 	} else {
 		p.MinDeposit = sdk.NewCoins(sdk.NewCoin(denom, sdk.NewInt(md)))
 	}
-	p.ServiceFeeTax = []sdk.Dec{sdk.ZeroDec(), sdk.NewDecWithPrec(1, 1), sdk.NewDecWithPrec(5, 1), sdk.NewDecWithPrec(5, 2), sdk.OneDec().Sub(sdk.SmallestDec())}[pick(rng, 5)]
+	p.ServiceFeeTax = []sdk.Dec{sdk.ZeroDec(), sdk.NewDecWithPrec(1, 1), sdk.NewDecWithPrec(5, 1), sdk.NewDecWithPrec(5, 2), sdk.OneDec().Sub(sdk.SmallestDec()),
+		sdk.NewDecWithPrec(125, 5), sdk.MustNewDecFromStr("0.333333333333333333"), sdk.MustNewDecFromStr("0.000049999999999999")}[pick(rng, 8)]
 	p.SlashFraction = []sdk.Dec{sdk.ZeroDec(), sdk.NewDecWithPrec(1, 3), sdk.NewDecWithPrec(5, 1), sdk.OneDec(), sdk.NewDecWithPrec(1, 1), sdk.NewDecWithPrec(34, 2)}[pick(rng, 6)]
 	durs := []time.Duration{1, 5 * time.Second, 10 * time.Second, 15 * time.Second, time.Hour}
 	p.ComplaintRetrospect = durs[pick(rng, len(durs))]
@@ -185,7 +187,9 @@ func RandPricing(rng *rand.Rand, base string) string {
 	return sb.String()
 }
 
-var basePrices = []string{"0", "1", "2", "3", "10", "100", "0.5", "1.9", "2.000000000000000001", "7", "5", "11", "13", "99"}
+var optionVariants = []string{"{}", "{}", `{"a":1}`, `[1,2]`, `"x"`, `{"nested":{"k":[true,null]}}`}
+
+var basePrices = []string{"0", "1", "2", "3", "10", "100", "0.5", "1.9", "2.000000000000000001", "7", "5", "11", "13", "99", "1000", "100000", "123457"}
 
 func coins(n int64) sdk.Coins {
 	if n == 0 {
@@ -196,10 +200,10 @@ func coins(n int64) sdk.Coins {
 
 // Gen is the random hostile history generator.
 type Gen struct {
-	r   *Run
-	rng *rand.Rand
-	A   *Actors
-	p   types.Params
+	r        *Run
+	rng      *rand.Rand
+	A        *Actors
+	p        types.Params
 	pastReqs []string // IDs of requests ever seen (for late/duplicate responses)
 	modCtxs  []string
 }
@@ -211,6 +215,12 @@ func NewGen(r *Run, a *Actors) *Gen {
 func (g *Gen) any20() sdk.AccAddress { return g.A.All20[pick(g.rng, len(g.A.All20))] }
 func (g *Gen) owner() sdk.AccAddress { return g.A.Owners[pick(g.rng, len(g.A.Owners))] }
 func (g *Gen) consumer() sdk.AccAddress {
+	switch g.rng.Intn(8) {
+	case 0:
+		return g.owner() // an owner consuming (possibly its own providers' service)
+	case 1:
+		return g.A.SignProv[pick(g.rng, 4)] // a provider consuming
+	}
 	return g.A.Consumers[pick(g.rng, len(g.A.Consumers))]
 }
 func (g *Gen) provider() sdk.AccAddress {
@@ -289,6 +299,14 @@ func (g *Gen) opDefine() {
 	name := serviceNames[pick(g.rng, len(serviceNames))]
 	author := g.any20()
 	tags := []string{"t1", "t2"}[:g.rng.Intn(3)]
+	switch g.rng.Intn(8) {
+	case 0:
+		tags = []string{"oracle", "oracle "} // distinct as given, equal once trimmed
+	case 1:
+		tags = []string{" "}
+	case 2:
+		tags = []string{"a", "a\t", " a"}
+	}
 	g.r.Msg(types.NewMsgDefineService(name, "desc", tags, author, "author", someSchemas(g.rng)), "")
 }
 
@@ -312,7 +330,7 @@ func (g *Gen) opBind(friendly bool) {
 	if !friendly && g.rng.Intn(6) == 0 {
 		qos = uint64(g.p.MaxRequestTimeout) + uint64(g.rng.Intn(2))
 	}
-	g.r.Msg(types.NewMsgBindService(svc, prov, coins(dep), pricing, qos, "{}", owner), note)
+	g.r.Msg(types.NewMsgBindService(svc, prov, coins(dep), pricing, qos, optionVariants[pick(g.rng, len(optionVariants))], owner), note)
 }
 
 func (g *Gen) opUpdateBinding() {
@@ -352,7 +370,7 @@ func (g *Gen) opUpdateBinding() {
 			pricing, note = tw, strings.TrimSpace(note+" one-element-pricing-change")
 		}
 	}
-	g.r.Msg(types.NewMsgUpdateServiceBinding(b.ServiceName, b.Provider, dep, pricing, qos, "{}", owner), note)
+	g.r.Msg(types.NewMsgUpdateServiceBinding(b.ServiceName, b.Provider, dep, pricing, qos, optionVariants[pick(g.rng, len(optionVariants))], owner), note)
 }
 
 func (g *Gen) opDisable() {
@@ -486,6 +504,9 @@ func (g *Gen) opCall() {
 			freq = uint64(timeout)
 		default:
 			freq = uint64(timeout) + uint64(g.rng.Intn(3))
+		}
+		if g.rng.Intn(12) == 0 {
+			freq = []uint64{255, 256, 767, 2550, 65536}[pick(g.rng, 5)]
 		}
 		total = []int64{1, 2, 3, -1, 5}[pick(g.rng, 5)]
 	}
@@ -709,6 +730,15 @@ func (g *Gen) opModControl() {
 		op.Op = "update"
 		op.Total = []int64{-1, 2, 4}[pick(g.rng, 3)]
 	}
+	if op.Op == "update" && g.rng.Intn(3) == 0 {
+		// narrow (or replace) the provider list together with the threshold
+		ps := g.providersFor(rc.ServiceName)
+		if g.rng.Intn(2) == 0 {
+			ps = ps[:1]
+		}
+		op.Providers = provHex(ps)
+		op.Threshold = uint32(1 + g.rng.Intn(len(ps)))
+	}
 	g.r.Mod(op, "")
 	// the same operation attempted by the consumer through the message path must fail
 	if g.rng.Intn(3) == 0 {
@@ -756,7 +786,14 @@ func (g *Gen) opInvalidShape() {
 	case 1:
 		call(provs, goodInput, coins(5), 0, false, 0, 0, "timeout 0")
 	case 2:
-		call(provs, goodInput, coins(5), -1, true, 1, 2, "negative timeout")
+		switch g.rng.Intn(3) {
+		case 0:
+			call(provs, goodInput, coins(5), -1, true, 1, 2, "negative timeout")
+		case 1:
+			call(provs, goodInput, coins(5), -1, false, 0, 0, "negative timeout, one-shot")
+		case 2:
+			call(provs, goodInput, coins(5), -3, true, 0, 2, "negative timeout, default frequency")
+		}
 	case 3:
 		call(provs, goodInput, coins(5), 3, true, 2, 2, "frequency below timeout")
 	case 4:
@@ -783,6 +820,8 @@ func (g *Gen) opInvalidShape() {
 			`{"price":"1stake","promotions_by_volume":[{"volume":2,"discount":"1.0"}]}`,
 			`{"price":"1stake","promotions_by_volume":[{"volume":2,"discount":"0"}]}`,
 			`{"price":"1stake","promotions_by_volume":[{"volume":2,"discount":"1.5"}]}`,
+			`{"price":"100stake","promotions_by_volume":[{"volume":5,"discount":"0.9"},{"volume":20,"discount":"0.5"},{"volume":10,"discount":"0.8"}]}`,
+			`{"price":"100stake","promotions_by_volume":[{"volume":1,"discount":"10.5"}]}`, `{"price":"100stake","promotions_by_time":[{"start_time":"2030-01-01T00:00:00Z","end_time":"2030-01-02T00:00:00Z","discount":"20.25"}]}`,
 			`{"price":"-1stake"}`, `{"price":"1"}`, `{"price":"1stake","extra":1}`, `{"price":"1stake","promotions_by_volume":[{"volume":2,"discount":"0.5"},{"volume":2,"discount":"0.5"}]}`,
 		}
 		g.r.Msg(types.NewMsgBindService(svc, g.provider(), coins(100000), bad[g.rng.Intn(len(bad))], 1, "{}", g.owner()), "invalid: pricing")
@@ -901,14 +940,14 @@ func RandomHistory(a *App, mon *Mon, seed int64, n int) *Run {
 	rng := rand.New(rand.NewSource(seed))
 	params := RandParams(rng)
 	// some histories start just below a byte boundary of the big-endian height keys
-	start := []int64{10, 10, 10, 250, 65530, 1<<32 - 6, 1 << 40}[pick(rng, 7)]
+	start := []int64{10, 10, 1, 2, 250, 65530, 1<<32 - 6, 1 << 40}[pick(rng, 8)]
 	r := NewRunAt(a, fmt.Sprintf("random-%d", seed), seed, params, mon, start)
 	act := MakeActors()
 	mid := []int64{3, 10, 40, 500}[pick(r.rng, 4)]
 	poor := []int64{0, 1, 2, 5}[pick(r.rng, 4)]
 	act.FundAll(r, 1_000_000_000, mid, poor)
 	if r.rng.Intn(3) != 0 {
-		r.InstallModuleService(RandPricing(r.rng, []string{"0", "1", "3", "0.5", "10"}[pick(r.rng, 5)]))
+		r.InstallModuleServiceQoS(RandPricing(r.rng, []string{"0", "1", "3", "0.5", "10"}[pick(r.rng, 5)]), []uint64{1, 1, 2, 3}[pick(r.rng, 4)])
 	}
 	r.SetStateCbKill(r.rng.Intn(5) == 0)
 	r.SetViaApp(r.rng.Intn(2) == 0)
